@@ -92,10 +92,16 @@ class SslRecord(ParsableBase):
         except InvalidValue as e:
             six.raise_from(InvalidValue(e.value, SslMessageType), e)
 
-        parser.parse_variant('message', SslSubprotocolMessageParser(parser['message_type']))
+        message_length = record_length - padding_length - 1
+        if message_length < 0:
+            raise InvalidValue(record_length, SslRecord, 'record_length')
+        parser.parse_raw('message_bytes', message_length)
+        message, parsed_length = SslSubprotocolMessageParser(parser['message_type']).parse(parser['message_bytes'])
+        if parsed_length != message_length:
+            raise InvalidValue(record_length, SslRecord, 'record_length')
         parser.parse_raw('padding', padding_length)
 
-        return SslRecord(message=parser['message']), parser.parsed_length
+        return SslRecord(message=message), parser.parsed_length
 
     def compose(self):
         body_composer = ComposerBinary()
